@@ -146,9 +146,8 @@ func registerIntrinsics(p *Program) {
 	I[verifPkg+".StringN"] = func(ex *Exec, fr *frame, fn *ssa.Function, a []Value) Value {
 		label := constStr(a[0], "verif.StringN label")
 		n := constInt(a[1], "verif.StringN len")
-		v := ex.Fresh("in!"+label, SStr)
+		v := ex.Fresh(fmt.Sprintf("in!%s!len%d", label, n), SStr)
 		ex.declareInput(v, v.S[3:])
-		ex.addPC(Eq(StrLen(v), IntC(n)))
 		return v
 	}
 	I[verifPkg+".Int"] = func(ex *Exec, fr *frame, fn *ssa.Function, a []Value) Value {
@@ -223,6 +222,11 @@ func registerIntrinsics(p *Program) {
 	I[verifPkg+".FreshString"] = func(ex *Exec, fr *frame, fn *ssa.Function, a []Value) Value {
 		label := constStr(a[0], "label")
 		n := tstr(a[1])
+		if n.IsConst() {
+			v := ex.Fresh(fmt.Sprintf("fresh!%s!len%d", label, n.I.Int64()), SStr)
+			ex.declareInput(v, v.S)
+			return v
+		}
 		v := ex.Fresh("fresh!"+label, SStr)
 		ex.declareInput(v, v.S)
 		ex.addPC(Eq(StrLen(v), n))
@@ -380,6 +384,9 @@ func registerIntrinsics(p *Program) {
 	I["(*encoding/base64.Encoding).DecodeString"] = func(ex *Exec, fr *frame, fn *ssa.Function, a []Value) Value {
 		k := encKind(a[0])
 		s := tstr(a[1])
+		if s.Op == "app" && s.S == "b64e_"+k {
+			return Tuple{newBytes(s.Args[0]), nilError} // decode(encode(x)) = x
+		}
 		if ex.Decide(App("b64ok_"+k, SBool, s)) {
 			return Tuple{newBytes(App("b64d_"+k, SStr, s)), nilError}
 		}
@@ -393,9 +400,15 @@ func registerIntrinsics(p *Program) {
 		if buf == nil {
 			return Tuple{IntC(0), nilError}
 		}
-		v := ex.Fresh("rand", SStr)
-		ex.declareInput(v, v.S)
-		ex.addPC(Eq(StrLen(v), buf.Len))
+		var v *Term
+		if buf.Len.IsConst() {
+			v = ex.Fresh(fmt.Sprintf("rand!len%d", buf.Len.I.Int64()), SStr)
+			ex.declareInput(v, v.S)
+		} else {
+			v = ex.Fresh("rand", SStr)
+			ex.declareInput(v, v.S)
+			ex.addPC(Eq(StrLen(v), buf.Len))
+		}
 		buf.A.S = writeRegion(buf.A.S, buf.Off, buf.Len, v)
 		return Tuple{buf.Len, nilError}
 	}
@@ -479,6 +492,7 @@ func registerIntrinsics(p *Program) {
 
 	registerTimeIntrinsics(p)
 	registerExtras(p)
+	registerReflect(p)
 	registerGoStubs(p)
 }
 
